@@ -110,14 +110,30 @@ def join1 : List Bytes → Bytes
   | [w] => w
   | w :: w2 :: rest => w ++ 0x20 :: join1 (w2 :: rest)
 
-open SSVerif.Hist in
+open SSVerif.Hist
+
+/-- the loop both passes of `fsg_search_hyp` run, in the C code's own order (from the exit entry along `pred`):
+`while (bp > 0) { e = entry(bp); bp = e.pred; if (wid < 0 || is_filler(wid)) continue; … baseword … }` — the base-form
+strings in VISITING order.  `fuel` bounds the walk as in `chainGo`. -/
+def visitGo {β : Type} (base : Nat → β) (g : Fsg) (h : Hist) : Nat → Int → List β
+  | 0, _ => []
+  | f + 1, bp =>
+    if bp > 0 then
+      let e := ent h bp.toNat
+      let l := linkOf g e
+      if l.wid < 0 ∨ g.isFiller l.wid then visitGo base g h f e.pred
+      else base l.wid.toNat :: visitGo base g h f e.pred
+    else []
+
+def visitWords {β : Type} (base : Nat → β) (g : Fsg) (h : Hist) (bp : Int) : List β := visitGo base g h h.size bp
+
 /-- `fsg_search_hyp` with bestpath compiled out (`__FSG_ALLOW_BESTPATH__ = 0`): what is returned / left in
 `search->hyp_str`, and `*out_score`.  `baseStr wid` = `dict_basestr(dict, dict_wordid(dict, fsg_model_word_str(fsg, wid)))`.
-`bpidx ≤ 0`: `NULL` (l.964); otherwise both passes run over the backtrace — `hypWords` lists it in utterance
-order, the C loops visit it from the exit backwards, hence `.reverse` — and pass 1 decides `len == 0`. -/
+`bpidx ≤ 0`: `NULL` (l.964); otherwise both passes walk the back-pointer chain from the exit (`visitWords`, the C loop
+itself: last word of the utterance first) and pass 1 decides `len == 0`. -/
 def hypRet (baseStr : Nat → Bytes) (g : Fsg) (h : Hist) (cur : Int) (final : Bool) : Res × Int :=
   let x := findExit g h cur cur final
   if x.bp ≤ 0 then (.null, x.score) else
-  (hypBuf (hypWords baseStr g h x.bp).reverse, x.score)
+  (hypBuf (visitWords baseStr g h x.bp), x.score)
 
 end SSVerif.HypBuf
